@@ -1,5 +1,6 @@
 """C01 — trusted chain state changes only on a fully verified last-state proof (DESIGN §5 C01)."""
 from engine.rules import Inconclusive
+from engine.defuse import DefUse
 
 EXPLANATION = (
     'Static all-paths rules over the MIR of the real binary: (r1) who-may-call for the writers of the persisted tip / '
@@ -50,15 +51,54 @@ def run(ctx):
     sinks = ctx.sites(F, COMMIT, 1)
     for g, acc in UNCOND:
         ctx.guard('C01.r2', F, g, acc, sinks, unconditional=True)
-    # check_continuous_headers: 3 sites; the last-N section check is the unconditional one
+    # continuity: the last-N section (tail of `headers`) on every path, the reorg section (head) whenever reorg_count != 0
     cch = P.call_sites(F, 'check_continuous_headers')
-    ctx.floor('C01.r2', 'check_continuous_headers sites in execute', len(cch), 3)
     cfg = P.cfg(F)
     sb = sinks[0][0]
-    dom = [g for g in cch if cfg.dominates(g[0], sb)]
-    ctx.ob('C01.r2', F.name, 'a check_continuous_headers call dominates commit_prove_state (last-N section)', len(dom) >= 1,
-           sites=len(cch), dominating=len(dom))
-    ctx.guard('C01.r2', F, 'check_continuous_headers', 'Ok', sinks, unconditional=False, min_guards=3)
+    du = DefUse(F)
+    cover = {}
+    for b, t in cch:
+        org = du.origins(t.args[0], stop_at_calls=False)
+        idx = [F.blocks[o[2]].term.callee for o in org if o[0] == 'call' and 'Index' in o[1]]
+        kinds = set()
+        for k in idx:
+            if 'RangeTo' in k and 'Inclusive' not in k:
+                kinds.add('head')
+            elif 'RangeFrom' in k:
+                kinds.add('tail')
+            elif 'RangeFull' in k:
+                kinds |= {'head', 'tail'}
+            else:
+                kinds.add('inner')
+        if not idx:
+            kinds = {'head', 'tail'}      # the whole vector
+        cover[b] = kinds
+    if not cch:
+        ctx.ob('C01.r2', F.name, 'the last-N section is checked for continuity on every path to commit_prove_state', False, at=sinks[0][1], detail='no check_continuous_headers call')
+    else:
+        tails = {b for b, k in cover.items() if 'tail' in k}
+        heads = {b for b, k in cover.items() if 'head' in k}
+        ctx.ob('C01.r2', F.name, 'the last-N section is checked for continuity on every path to commit_prove_state',
+               bool(tails) and sb not in cfg.reachable_from([cfg.entry], removed_nodes=tails), at=cch[0][1].span, tail_checks=len(tails))
+        # reorg section: with the head-covering checks removed, commit is reachable only when reorg_count == 0
+        nz = [c for c in ctx.cmp_stmts(F) if c[2] in ('Ne', 'Eq') and c[4] == 'const 0_usize' and F.debug.get('reorg_count') and
+              any(F.debug['reorg_count'] == '_%s' % x for x in __import__('re').findall(r'_(\d+)', ' '.join(map(str, reach_copy(du, c[3])))))]
+        from engine.flow import GuardFlow
+        gf = GuardFlow(F, cfg)
+        ok_head = False
+        if heads:
+            if sb not in cfg.reachable_from([cfg.entry], removed_nodes=heads):
+                ok_head = True
+            else:
+                for c in nz:
+                    acc = 'false' if c[2] == 'Ne' else 'true'      # outcome meaning reorg_count == 0
+                    r, _ = gf.check_sink((c[0], c[1]), acc, sb, unconditional=False, removed=heads)
+                    # the test must also be on every such path: without head checks and without the test, commit unreachable
+                    if r and sb not in cfg.reachable_from([cfg.entry], removed_nodes=heads | {c[0]}):
+                        ok_head = True
+        ctx.ob('C01.r2', F.name, 'the reorg section is checked for continuity whenever it is non-empty', ok_head, at=cch[0][1].span, head_checks=len(heads),
+               reorg_count_tests=len(nz))
+        ctx.guard('C01.r2', F, 'check_continuous_headers', 'Ok', sinks, unconditional=False)
     ctx.guard('C01.r2', F, 'verify_tau', 'Ok(true)', sinks, unconditional=False)
     ctx.guard('C01.r2', F, 'verify_total_difficulty', 'Ok', sinks, unconditional=False)
 
@@ -129,3 +169,18 @@ def meta_key_writers(P, consts):
         if any(k.endswith('>::put') or k in ('Batch::put', 'Batch::put_kv') for k in keys):
             out.add(top.name)
     return out
+
+
+def reach_copy(du, operand):
+    import re
+    out = set()
+    stack = [int(x) for x in re.findall(r'_(\d+)', operand)]
+    while stack:
+        l = stack.pop()
+        if l in out:
+            continue
+        out.add(l)
+        for kind, bid, obj in du.defs.get(l, []):
+            if kind == 'assign' and re.match(r"^(move |copy )?_\d+$", obj.rhs.strip()):
+                stack += [int(x) for x in re.findall(r'_(\d+)', obj.rhs)]
+    return {'_%d' % x for x in out}
